@@ -1,9 +1,154 @@
-//! C12: not built yet.
-use crate::out::Out;
-use serde_json::Value;
+//! C12: lifted and normalised IR is size-consistent.
+//! Generates whole P-Code projects (pcodegen.rs: functions with loops, calls, stack / global
+//! accesses over an x86-64-like register table with sub-registers) enriched with the
+//! size-stressing instruction groups of pblockgen.rs, runs the REAL pipeline
+//!   pcode::Project::normalize + into_ir_project   ("lifted")
+//!   Project::normalize_basic                      ("basic")
+//!   Project::normalize_optimize                   ("optimized")
+//! and records the program after every stage.  TLC evaluates spec/WellSized.tla on every Def and
+//! Jmp of every recorded program; nothing is decided here.
+use crate::out::{catch, Out};
+use crate::pblockgen::{self, BlockGen};
+use crate::pcodegen::{self, Knobs};
+use crate::rng::Rng;
+use crate::irenc;
+use cwe_checker_lib::intermediate_representation::{Expression, Project};
+use cwe_checker_lib::pcode;
+use serde_json::{json, Value};
 
-pub fn gen(_out: &mut Out, _sub: &str) {}
+/// slim projection: stack pointer and the Defs / Jmps of all blocks
+fn slim(p: &Project) -> Value {
+    let subs: Vec<Value> = p
+        .program
+        .term
+        .subs
+        .values()
+        .map(|s| {
+            json!({"tid": irenc::tid(&s.tid), "blocks": s.term.blocks.iter().map(|b| {
+                json!({"tid": irenc::tid(&b.tid),
+                       "defs": b.term.defs.iter().map(irenc::def).collect::<Vec<_>>(),
+                       "jmps": b.term.jmps.iter().map(irenc::jmp).collect::<Vec<_>>()})
+            }).collect::<Vec<_>>()})
+        })
+        .collect();
+    json!({"sp": irenc::var(&p.stack_pointer_register), "program": {"subs": subs}})
+}
 
-pub fn replay(_run: &[Value], _sub: &str) -> Vec<Value> {
-    Vec::new()
+fn empty_project(raw: &Value) -> Value {
+    json!({"sp": {"n": raw["stack_pointer_register"]["name"], "s": raw["stack_pointer_register"]["size"], "t": false}, "program": {"subs": []}})
+}
+
+/// number of size-changing expressions (feature tag only)
+fn resizing(p: &Project) -> u64 {
+    fn count(e: &Expression) -> u64 {
+        match e {
+            Expression::Var(_) | Expression::Const(_) | Expression::Unknown { .. } => 0,
+            Expression::BinOp { op, lhs, rhs } => count(lhs) + count(rhs) + u64::from(matches!(op, cwe_checker_lib::intermediate_representation::BinOpType::Piece)),
+            Expression::UnOp { arg, .. } => count(arg),
+            Expression::Cast { arg, .. } | Expression::Subpiece { arg, .. } => 1 + count(arg),
+        }
+    }
+    use cwe_checker_lib::intermediate_representation::Def;
+    p.program.term.subs.values().flat_map(|s| s.term.blocks.iter()).flat_map(|b| b.term.defs.iter()).map(|d| match &d.term {
+        Def::Assign { value, .. } => count(value),
+        Def::Load { address, .. } => count(address),
+        Def::Store { address, value } => count(address) + count(value),
+    }).sum()
+}
+
+/// The events of one case: reset (carries the input) + one event per stage.
+pub fn exec(input: &Value) -> (Vec<Value>, bool) {
+    let raw: Value = serde_json::from_str(input["raw"].as_str().unwrap()).expect("raw P-Code project");
+    let idx = input["idx"].clone();
+    let mut evs = vec![json!({"ev": "reset", "idx": idx, "raw": input["raw"]})];
+    let stage = |name: &str, project: Value, panic: String| json!({"ev": "stage", "stage": name, "idx": idx, "panic": panic, "project": project});
+    let pproject: pcode::Project = match serde_json::from_value(raw.clone()) {
+        Ok(p) => p,
+        Err(e) => {
+            evs.push(stage("lifted", empty_project(&raw), format!("deserialization of the extractor output failed: {}", e)));
+            return (evs, false);
+        }
+    };
+    let base = u64::from_str_radix(raw["program"]["term"]["image_base"].as_str().unwrap(), 16).unwrap();
+    let lifted = catch(move || {
+        let mut p = pproject;
+        let _ = p.normalize();
+        p.into_ir_project(base)
+    });
+    let mut project = match lifted {
+        Ok(p) => p,
+        Err(msg) => {
+            evs.push(stage("lifted", empty_project(&raw), format!("panic: {}", msg)));
+            return (evs, false);
+        }
+    };
+    let nontrivial = resizing(&project) > 0;
+    evs.push(stage("lifted", slim(&project), String::new()));
+    let before = slim(&project);
+    let r = catch(std::panic::AssertUnwindSafe(|| {
+        let _ = project.normalize_basic();
+    }));
+    if let Err(msg) = r {
+        evs.push(stage("basic", before, format!("panic: {}", msg)));
+        return (evs, nontrivial);
+    }
+    evs.push(stage("basic", slim(&project), String::new()));
+    let before = slim(&project);
+    let r = catch(std::panic::AssertUnwindSafe(|| {
+        let _ = project.normalize_optimize();
+    }));
+    if let Err(msg) = r {
+        evs.push(stage("optimized", before, format!("panic: {}", msg)));
+        return (evs, nontrivial);
+    }
+    evs.push(stage("optimized", slim(&project), String::new()));
+    (evs, nontrivial)
+}
+
+pub fn replay(run: &[Value], _sub: &str) -> Vec<Value> {
+    run.iter().filter(|e| e["ev"] == "reset").flat_map(|e| exec(e).0).collect()
+}
+
+/// A generated project: pcodegen functions whose blocks are enriched with pblockgen instruction groups.
+fn one_input(seed: u64, idx: u64, arch: &pblockgen::Arch) -> Value {
+    let mut rng = Rng::new(seed ^ idx.wrapping_mul(0x9E37_79B9_7F4A_7C15) ^ 0xC12);
+    let knobs = Knobs { n_funcs: 1 + rng.below(3) as usize, max_blocks: 3 + rng.below(4) as usize, must_call: Vec::new(), lkm: false };
+    let mut spec = pcodegen::gen_funcs(&mut rng, &knobs);
+    for f in spec.funcs.iter_mut() {
+        let nb = f.blocks.len();
+        for (bi, b) in f.blocks.iter_mut().enumerate() {
+            if bi + 1 == nb {
+                continue; // keep the epilogue
+            }
+            let extra = rng.below(4);
+            for _ in 0..extra {
+                let group = {
+                    let mut g = BlockGen::new(&mut rng, arch);
+                    g.instr()
+                };
+                if group.is_empty() {
+                    continue;
+                }
+                // keep a call's return-address push the last instruction of its block
+                let at = if b.instrs.is_empty() { 0 } else { rng.below(b.instrs.len() as u64) as usize };
+                b.instrs.insert(at, group);
+            }
+        }
+    }
+    let (mut raw, _) = pcodegen::layout(&spec);
+    raw["register_properties"] = arch.register_properties();
+    json!({"idx": idx, "raw": serde_json::to_string(&raw).unwrap()})
+}
+
+pub fn gen(out: &mut Out, _sub: &str) {
+    let n = out.size(480, 6000);
+    let arch = pblockgen::arch64();
+    let inputs: Vec<Value> = (0..n).map(|idx| one_input(out.seed, idx, &arch)).collect();
+    let results = crate::par::map(inputs, 8, |inp| exec(&inp));
+    let mut panics = 0u64;
+    for (evs, nontrivial) in results {
+        panics += evs.iter().filter(|e| e["ev"] == "stage" && e["panic"] != json!("")).count() as u64;
+        out.emit(evs, nontrivial);
+    }
+    out.extra.insert("stage_panics".to_string(), json!(panics));
 }
